@@ -1050,3 +1050,9 @@ v("C13", "silent-fillempty-guard-truthiness", "silent", F,
 v("C14", "merge-absolute-range-from-upper", "fire", F,
   "            active_range = (range_start, range_end)\n        elif style == \"linear\":",
   "            active_range = self.getActive()\n        elif style == \"linear\":", "C14.R5")
+
+
+# D18 (fix: fromYAMLfile name)
+v("C13", "fromYAMLfile-drops-name", "fire", T,
+  "        return Tensor.fromFiber(rank_ids, root, shape=shape, name=name)",
+  "        return Tensor.fromFiber(rank_ids, root, shape=shape)", "C13.R1")
